@@ -53,7 +53,7 @@ def check(run, repo, tier):
   r3_rebuild_and_assert(run, w)
   r4_suppression(run, w)
   from ._extra import c08_schema_updates_before_modify
-  c08_schema_updates_before_modify(run, w, "C08-R1")
+  run.guard(c08_schema_updates_before_modify, run, w, "C08-R1")
 
 
 # ------------------------------------------------------------------------------------------ R1
